@@ -54,6 +54,25 @@ Proof.
   - induction kvs as [|[k x] r IH]; [reflexivity|]. rewrite String.eqb_refl, json_eqb_refl. exact IH.
 Qed.
 
+(* json_eqb decides syntactic equality *)
+Fixpoint json_eqb_true (a b: json) {struct a} : json_eqb a b = true -> a = b.
+Proof.
+  destruct a as [| x | x | x | x | l | kvs]; destruct b as [| y | y | y | y | l' | kvs']; cbn [json_eqb]; intros H; try discriminate.
+  - reflexivity.
+  - apply Bool.eqb_prop in H. subst. reflexivity.
+  - apply Z.eqb_eq in H. subst. reflexivity.
+  - apply String.eqb_eq in H. subst. reflexivity.
+  - apply String.eqb_eq in H. subst. reflexivity.
+  - f_equal. revert l' H. induction l as [|u r IH]; intros [|v r'] H; try discriminate; [reflexivity|].
+    apply andb_true_iff in H. destruct H as [H1 H2]. f_equal; [apply json_eqb_true; assumption|apply IH; assumption].
+  - f_equal. revert kvs' H. induction kvs as [|[k1 u] r IH]; intros [|[k2 v] r'] H; try discriminate; [reflexivity|].
+    apply andb_true_iff in H. destruct H as [H1 H2]. apply andb_true_iff in H1. destruct H1 as [H0 H1].
+    apply String.eqb_eq in H0. subst. f_equal; [f_equal; apply json_eqb_true; assumption|apply IH; assumption].
+Qed.
+
+Lemma json_eqb_sym_true a b : json_eqb a b = true -> json_eqb b a = true.
+Proof. intros H. apply json_eqb_true in H. subst. apply json_eqb_refl. Qed.
+
 Inductive jtype := TyNull | TyBoolean | TyObject | TyArray | TyNumber | TyString | TyInteger.
 
 Definition jtype_eqb (a b: jtype) : bool :=
@@ -115,24 +134,20 @@ Section Validator.
   Variable pm : string -> string -> bool.
   Variable defs : list (string * schema).
 
-  Fixpoint jvalid (fuel: nat) (s: schema) (j: json) {struct fuel} : bool :=
-    match fuel with
-    | O => false
-    | Datatypes.S n =>
-      let kws := kws_of s in
-      forallb (fun k =>
+  (* one keyword, given the validator [rec] for subschemas and the sibling keywords *)
+  Definition kw_ok (rec: schema -> json -> bool) (kws: list kw) (j: json) (k: kw) : bool :=
         match k with
         | KType t => has_type t j
         | KTitle _ | KFormat _ => true
         | KPattern p => match j with JStr x => pm p x | _ => true end
         | KEnum vs => existsb (json_eqb j) vs
         | KConst v => json_eqb j v
-        | KAnyOf l => existsb (fun s' => jvalid n s' j) l
-        | KRef _ name => match assoc defs name with Some s' => jvalid n s' j | None => false end
+        | KAnyOf l => existsb (fun s' => rec s' j) l
+        | KRef _ name => match assoc defs name with Some s' => rec s' j | None => false end
         | KProps ps =>
             match j with
             | JObj kvs => forallb (fun kv => match kv with (key, x) =>
-                             match assoc ps key with Some s' => jvalid n s' x | None => true end end) kvs
+                             match assoc ps key with Some s' => rec s' x | None => true end end) kvs
             | _ => true end
         | KRequired l => match j with JObj kvs => forallb (has_key kvs) l | _ => true end
         | KAddl b =>
@@ -142,18 +157,26 @@ Section Validator.
         | KAddlS s' =>
             match j with
             | JObj kvs => forallb (fun kv => match kv with (key, x) =>
-                             has_key (get_props kws) key || jvalid n s' x end) kvs
+                             has_key (get_props kws) key || rec s' x end) kvs
             | _ => true end
         | KPropNames s' =>
-            match j with JObj kvs => forallb (fun kv => jvalid n s' (JStr (fst kv))) kvs | _ => true end
-        | KPrefix l => match j with JArr xs => forallb2 (fun s' x => jvalid n s' x) l xs | _ => true end
+            match j with JObj kvs => forallb (fun kv => rec s' (JStr (fst kv))) kvs | _ => true end
+        | KPrefix l => match j with JArr xs => forallb2 (fun s' x => rec s' x) l xs | _ => true end
         | KItems s' =>
-            match j with JArr xs => forallb (jvalid n s') (skipn (get_prefix_len kws) xs) | _ => true end
+            match j with JArr xs => forallb (rec s') (skipn (get_prefix_len kws) xs) | _ => true end
         | KMin m => match j with JArr xs => (m <=? Z.of_nat (List.length xs))%Z | _ => true end
         | KMax m => match j with JArr xs => (Z.of_nat (List.length xs) <=? m)%Z | _ => true end
         | KUnique b => match j with JArr xs => negb b || no_dup_json xs | _ => true end
-        end) kws
+        end.
+
+  Fixpoint jvalid (fuel: nat) (s: schema) (j: json) {struct fuel} : bool :=
+    match fuel with
+    | O => false
+    | Datatypes.S n => forallb (kw_ok (jvalid n) (kws_of s) j) (kws_of s)
     end.
+
+  Lemma jvalid_S n s j : jvalid (Datatypes.S n) s j = forallb (kw_ok (jvalid n) (kws_of s) j) (kws_of s).
+  Proof. reflexivity. Qed.
 End Validator.
 
 (* ---- structural equality of schemas (comparison with the real build_json_schema output) ---- *)
